@@ -23,21 +23,25 @@ class PathCache:
 
 
 def static_callees(prog, eff, fname):
-    """internal (static) functions reachable from fname through direct calls, excluding those that are recursive
-    without passing through fname: implementation details that may be inlined so that extract-/inline-helper
-    refactorings do not change a verdict.  A helper that calls fname back (an arm of a recursive function moved into
-    a helper) is inlined; the call back to fname inside it stays an opaque call."""
-    def reaches_itself_avoiding(c):
+    """internal (static) functions reachable from fname through direct calls, excluding those on a cycle made of
+    internal functions only: implementation details that may be inlined so that extract-/inline-helper refactorings
+    do not change a verdict.  Only these functions are ever inlined, so a helper that calls an exported function back
+    (an arm of a recursive routine moved into a helper) is safe to inline: the exported call inside it stays opaque."""
+    def internal(c):
+        g = prog.funcs.get(c)
+        return g is not None and g.internal and c != fname
+
+    def on_internal_cycle(c):
         seen = set()
         stack = [c]
         while stack:
             x = stack.pop()
             for d in eff.summ[x]["callees"]:
-                if d == fname:
+                if not internal(d):
                     continue
                 if d == c:
                     return True
-                if d not in seen and d in eff.summ:
+                if d not in seen:
                     seen.add(d)
                     stack.append(d)
         return False
@@ -46,9 +50,8 @@ def static_callees(prog, eff, fname):
     while stack:
         x = stack.pop()
         for c in eff.summ[x]["callees"]:
-            g = prog.funcs.get(c)
-            if g is not None and g.internal and c not in out and c != fname:
-                if reaches_itself_avoiding(c):
+            if internal(c) and c not in out:
+                if on_internal_cycle(c):
                     continue   # recursive helper: not inlined
                 out.add(c)
                 stack.append(c)
